@@ -58,8 +58,8 @@ for t in ['float', 'double']:
                      wip=True, **BD))
 # INT96 (12-byte values, compare_int96 unwound) and FLBA(16) (compare_byte_array, memcmp exact for 16 bytes): same contract
 JOBS.append(dict(name='c16_builder_add_values_int96', entry='h_add_values', enforce='carquet_statistics_add_values',
-                 defines=['CQV_BT=3', 'CQV_STATS_EXACT=16', 'CQV_STATS_CMP=16'], min_loop_obligations=1,
-                 unwindset=['compare_int96.0:4', 'memcmp.0:17', 'memcpy.0:17'], timeout=300, wip=True, **BD))
+                 defines=['CQV_BT=3', 'CQV_STATS_EXACT=16'], min_loop_obligations=1,
+                 unwindset=['compare_int96.0:4', 'memcmp.0:9', 'memcpy.0:17'], timeout=600, wip=True, **BD))
 JOBS.append(dict(name='c16_builder_add_values_flba16', entry='h_add_values', enforce='carquet_statistics_add_values',
                  defines=['CQV_BT=7', 'CQV_FLBA16=1', 'CQV_STATS_EXACT=16', 'CQV_STATS_CMP=16'], min_loop_obligations=1,
                  unwindset=['compare_int96.0:4', 'memcmp.0:17', 'memcpy.0:17'], timeout=300, level='bounded',
@@ -139,11 +139,21 @@ FIXED = {
     '3a560b6 page_might_match memcmp on numerics': 'c16_page_might_match_{i32,i64,float,double}',
 }
 EST = {'c16_filter_row_groups': 60, 'c16_pw_update_statistics_i32': 30, 'c16_pw_update_statistics_i64': 40,
-       'c16_pw_update_statistics_float': 60, 'c16_pw_update_statistics_double': 110, 'c16_builder_add_values_double': 40}
-NEW_WIP = set('c16_builder_add_values_int96 c16_builder_add_values_flba16 c16_compare_int96 c16_stats_compare_int96 c16_range_overlaps_int96 c16_stats_compare_bool c16_range_overlaps_bool'.split())
+       'c16_pw_update_statistics_float': 60, 'c16_pw_update_statistics_double': 110, 'c16_builder_add_values_double': 40, 'c16_builder_add_values_int96': 190}
+# still open
+NOTES = {
+    'c16_range_overlaps_int96': ('FINDING: carquet_statistics_range_overlaps sends INT96 (no case in its switch) to compare_byte_array = memcmp over '
+                                 'the 12 little-endian bytes, while the builder and carquet_statistics_compare order INT96 with compare_int96 '
+                                 '(unsigned words, most significant first): stats [255,255], query [0,256] -> overlaps=false (native: /tmp/stats/int96_demo.c). '
+                                 'Fix: add `case CARQUET_PHYSICAL_INT96: cmp = compare_int96(...)` (and BOOLEAN -> compare_boolean) to both switches.'),
+    'c16_builder_add_values_flba16': 'UNDECIDED: cbmc timeout at 300 s (16-byte exact memcmp/memcpy in the loop step); not a claim',
+}
+NEW_WIP = set(NOTES) - {'c16_range_overlaps_int96'}   # repaired upstream by 8c71e4e
 for j in JOBS:
     j['wip'] = j['name'] in NEW_WIP
     if j['name'] in EST:
         j['est_s'] = EST[j['name']]
-    if j['name'] == 'c16_pw_update_statistics_double':
-        j['tier'] = 'thorough'   # ~110 s unloaded
+    if j['name'] in NOTES:
+        j['note'] = NOTES[j['name']]
+    if j['name'] in ('c16_pw_update_statistics_double', 'c16_builder_add_values_int96', 'c16_builder_add_values_flba16'):
+        j['tier'] = 'thorough'   # 110-200 s
